@@ -13,6 +13,9 @@ NOT_APPLICABLE = {}
 
 
 def claim(pid, technique, text, note, ref):
+    from .manifest_table import EXTRA
+    if pid in EXTRA:
+        text = text + ' ' + EXTRA[pid]
     CLAIMED[pid] = (technique, text, note, ref)
 
 
